@@ -3,7 +3,7 @@ from textwrap import indent
 
 from pydbml.classes import Table
 from pydbml.renderer.dbml.default.renderer import DefaultDBMLRenderer
-from pydbml.renderer.dbml.default.utils import comment_to_dbml, quote_string, quote_name_if_needed
+from pydbml.renderer.dbml.default.utils import comment_to_dbml, quote_string, quote_name_if_needed, quote_property_key
 
 
 def get_full_name_for_dbml(model) -> str:
@@ -45,7 +45,7 @@ def render_table(model: Table) -> str:
 
     if model.properties:
         if model.database and model.database.allow_properties:
-            properties_str = '\n' + '\n'.join(f'{quote_name_if_needed(key)}: {quote_string(value)}' for key, value in model.properties.items()) + '\n'
+            properties_str = '\n' + '\n'.join(f'{quote_property_key(key)}: {quote_string(value)}' for key, value in model.properties.items()) + '\n'
             properties_str = indent(properties_str, '    ')
             result += properties_str
 
